@@ -143,9 +143,10 @@ def check_known(core, mod, pid):
             if e["key"] in keys:
                 lines.append("KNOWN-FINDING: property=%s %s [%s]" % (pid, e["what"], e["key"]))
             # other keys on the witness are handled by the main search's classifier
-        else:  # fixed: witness must pass completely w.r.t. its own key
-            if e["key"] in keys:
-                d = [d for k, d in fails if k == e["key"]][0]
+        else:  # fixed: witness must pass completely w.r.t. its own key ("key#n" distinguishes several fixes in one bucket)
+            mk = e["key"].split("#")[0]
+            if mk in keys:
+                d = [d for k, d in fails if k == mk][0]
                 viols["regressed:" + e["key"]] = {"detail": "fixed finding is back: " + str(d), "case": e["witness"]}
     return lines, viols
 
